@@ -14,7 +14,8 @@ RULE = (
     "addressed story read from str(ro); conservation of the (story,item) multiset for MOVE/SWAP on "
     "every input.  Non-trivial = item-level message whose references resolve, addressed story has "
     ">= 2 items; distinct = distinct (state text, message text) digests."
-    " Also: paragraph layouts with the storyID last, an anonymous item (empty itemID), look-alike 'twin' item IDs and a <storyItem> / foreign-namespace <item> carrying a real item's ID ahead of it; the same source named twice in a move; merge-route and logging alternation as in C01.")
+    " Also: paragraph layouts with the storyID last, an anonymous item (empty itemID), look-alike 'twin' item IDs and a <storyItem> / foreign-namespace <item> carrying a real item's ID ahead of it; the same source named twice in a move; merge-route and logging alternation as in C01."
+    " Round 11: history steps re-using an earlier messageID; directed three-step 'returning element' histories for items.")
 ASSUMPTIONS = [
     'item IDs unique within a story (they repeat across stories on purpose); carried items get fresh IDs',
     'repeated IDs inside one message / reference among the sources: conservation only',
